@@ -259,8 +259,13 @@ def strat_spheres(tier):
     ints = st.integers(-6, 6)
     mem = st.fixed_dictionaries({"c": st.tuples(ints, ints, ints).map(list), "r": st.integers(1, 4),
                                  "layered": st.booleans(), "jit": st.tuples(st.floats(-1, 1), st.floats(-1, 1), st.floats(-1, 1)).map(list)})
+    # near: member i is instead placed almost in contact with member i-1: centre distance (r_i + r_{i-1})(1 + sign*10^-k)
+    near = st.one_of(st.none(), st.none(), st.fixed_dictionaries({
+        "u": st.tuples(st.floats(0, math.pi), st.floats(0, 2 * math.pi)).map(list), "k": st.floats(2.0, 14.0), "sign": st.sampled_from([-1, 1])}))
+    mem = st.tuples(mem, near).map(lambda t: dict(t[0], near=t[1]))
     return st.fixed_dictionaries({"mem": st.lists(mem, min_size=1, max_size=8), "exact": st.booleans(), "warn": st.booleans(),
-                                  "scale": st.sampled_from([1.0, 0.5, 0.1, 1e-3, 7.0]), "fraction": st.floats(0.0, 1.0),
+                                  "scale": st.sampled_from([1.0, 0.5, 0.1, 1e-3, 7.0, 1e-7, 3e5]),
+                                  "fraction": st.one_of(st.floats(0.0, 1.0), st.sampled_from([0.0, 0.1])),
                                   "bad": st.sampled_from(["none", "none", "non_sphere_member", "add_non_sphere", "negative_radius", "scalar_center", "short_center"])})
 
 
@@ -274,6 +279,14 @@ def run_spheres(case):
     for m in case["mem"]:
         c = [(a + (0 if case["exact"] else 0.3 * j)) * sc for a, j in zip(m["c"], m["jit"])]
         r = m["r"] * sc * (1.0 if case["exact"] else 1.0)
+        nr = m.get("near")
+        if nr is not None and cs:
+            th, ph = nr["u"]
+            u = (math.sin(th) * math.cos(ph), math.sin(th) * math.sin(ph), math.cos(th))
+            dd = (r + rs[-1]) * (1.0 + nr["sign"] * 10.0 ** (-nr["k"]))
+            c = [a + dd * b for a, b in zip(cs[-1], u)]
+            if "near_contact" not in labels:
+                labels.append("near_contact")
         cs.append(c); rs.append(r)
         spheres.append(Sphere(n=[1.5, 1.6], r=[r * 0.5, r], center=tuple(c)) if m["layered"] else Sphere(n=1.5, r=r, center=tuple(c)))
     bad = case["bad"]
@@ -323,13 +336,19 @@ def run_spheres(case):
         if bool(nwarn) != (bool(want_pairs) and case["warn"]):
             return Outcome(failure("overlap_warning", "%d OverlapWarning(s) with warn=%s and %d overlapping pairs" % (nwarn, case["warn"], len(want_pairs))), True, labels)
     lo = S.largest_overlap()
-    if abs(lo - want_largest) > 1e-12 * max(1.0, max(rs)) * TOLX:
+    lscale = max(max(rs), max(abs(a) for c in cs for a in c))
+    if abs(lo - want_largest) > 1e-13 * lscale * TOLX:
         return Outcome(failure("largest_overlap", "largest_overlap %r, expected max(sum radii - distance, 0) = %r" % (lo, want_largest)), True, labels)
     lim = LimitOverlaps(case["fraction"])
     thr = 2 * min(rs) * case["fraction"]
     # the constraint is documented in terms of the sphere diameter; for layered members that notion is
     # ambiguous in the code (it takes the smallest layer radius), so it is checked for uniform spheres only
     uniform = not any(m["layered"] for m in case["mem"])
+    raw_largest = max([-math.inf] + [rs[i] + rs[j] - dist(i, j) for i, j in itertools.combinations(range(len(spheres)), 2)])
+    if uniform and thr == 0 and len(spheres) >= 2 and raw_largest < -1e-9 * max(rs):
+        # clearly separated spheres have overlap exactly 0, which a zero allowance ("no overlap") permits
+        if not lim.check(S):
+            return Outcome(failure("limit_overlaps", "LimitOverlaps(0).check is False for clearly separated spheres (largest raw overlap %r)" % raw_largest), True, labels)
     if uniform and abs(want_largest - thr) > 1e-9 * max(rs) and lim.check(S) != (want_largest <= thr):
         return Outcome(failure("limit_overlaps", "LimitOverlaps(%r).check = %r but largest overlap %r vs allowed %r" % (case["fraction"], lim.check(S), want_largest, thr)), True, labels)
     n = len(spheres)
